@@ -14,7 +14,9 @@ func init() { register("C03", runC03) }
 func c03Table() []GuardReq {
 	var t []GuardReq
 	add := func(r GuardReq) { t = append(t, r) }
-	uh := func(f string) string { return "call (types.UnlockConditions).UnlockHash(%T1%." + f + "[*].UnlockConditions)" }
+	uh := func(f string) string {
+		return "call (types.UnlockConditions).UnlockHash(%T1%." + f + "[*].UnlockConditions)"
+	}
 	// ---- v1: revealed unlock conditions hash to the parent's address ----
 	add(req("v1-unlock-hash:SiacoinInputs", VT, uh("SiacoinInputs"), opNE, v1Elem("siacoinElement", "SiacoinInputs")+"#0.SiacoinOutput.Address", "revealed unlock conditions must hash to the address committed in the parent"))
 	r := req("v1-unlock-hash:SiafundInputs", VT, uh("SiafundInputs"), opNE, v1Elem("siafundElement", "SiafundInputs")+"#0.SiafundOutput.Address", "revealed unlock conditions must hash to the address committed in the parent (first conjunct; the dev-address override follows)")
